@@ -2,12 +2,53 @@
 // Monitors: byte snapshots of every source buffer (including stride padding) around every catalogue call;
 // hash of every byte of the modules / precomputed tables before and after each batch of calls; in the
 // "ro" build the modules and tables additionally live in PROT_READ pages (a transient write faults).
+#include <pthread.h>
+
 #include "ops.h"
 #include "roalloc.h"
 
+typedef struct {
+  uint64_t N;
+  int native;
+  unsigned batch, seeds;
+  env_t* env;
+  uint64_t h0, tb, calls, srcb;
+} batch_t;
+static void* batch_calls(void* arg) {
+  batch_t* B = arg;
+  const uint64_t N = B->N;
+  const int native = B->native;
+  const unsigned batch = B->batch, seeds = B->seeds;
+  env_t* env = B->env;
+  for (int oi = 0; oi < N_CAT_OPS; oi++) {
+    const opdef_t* o = &OPS[oi];
+    if (!native && (o->flags & (OPF_NTT120 | OPF_AVX | OPF_KERNEL | OPF_SIMPLE))) continue;
+    for (unsigned sd = 0; sd < seeds; sd++) {
+      opres_t r;
+      op_exec(o, env, mix64(G.seed * 77 + batch * 1009 + sd), (int)(sd & 3), sd + batch, MON_CANARY | MON_SNAPSHOT, &r);
+      if (r.skipped) continue;
+      B->calls++;
+      B->srcb += r.src_bytes;
+      if (r.src_modified) viol("snapshot", "%s [%s] N=%" PRIu64 " %s: %s", o->name, r.shape, N, native ? "native" : "generic", r.msg);
+      if (r.canary_bad) viol("canary", "%s [%s]: %s", o->name, r.shape, r.msg);
+      if (r.src_bytes) cntf("snapshotted:%s", 1, o->name);
+    }
+    // after all the calls of one entry point: the shared objects are bit-for-bit what they were at creation
+    uint64_t t2;
+    if (env_hash(env, &t2) != B->h0) {
+      viol("table", "a module / precomputed table changed while calling %s (N=%" PRIu64 " %s)", o->name, N, native ? "native" : "generic");
+      break;
+    }
+    cnt("table_bytes_compared", B->tb);
+  }
+  return 0;
+}
 static void batch_case(uint64_t N, int native, unsigned batch, unsigned seeds) {
-  char key[96];
-  snprintf(key, sizeof key, "catalogue-batch|%s%s", native ? "native" : "generic", ro_available() ? ",ro-tables" : "");
+  char key[128];
+  // every third batch makes its calls from a thread other than the one that created the module and the tables (and that thread
+  // exits afterwards): an object must not record who uses it
+  const int foreign = (batch % 3) == 2;
+  snprintf(key, sizeof key, "catalogue-batch|%s%s%s", native ? "native" : "generic", ro_available() ? ",ro-tables" : "", foreign ? ",called from another thread than the creator" : "");
   if (!case_begin(key, "N=%" PRIu64 " disp=%s batch=%u seeds=%u", N, native ? "native" : "generic", batch, seeds)) return;
   ro_capture(1);
   env_t* env = env_create(N, native);
@@ -19,28 +60,15 @@ static void batch_case(uint64_t N, int native, unsigned batch, unsigned seeds) {
     cnt("ro_protected_bytes", robytes);
     cnt("ro_protected_allocations", ro_regions());
   }
-  uint64_t calls = 0, srcb = 0;
-  for (int oi = 0; oi < N_CAT_OPS; oi++) {
-    const opdef_t* o = &OPS[oi];
-    if (!native && (o->flags & (OPF_NTT120 | OPF_AVX | OPF_KERNEL | OPF_SIMPLE))) continue;
-    for (unsigned sd = 0; sd < seeds; sd++) {
-      opres_t r;
-      op_exec(o, env, mix64(G.seed * 77 + batch * 1009 + sd), (int)(sd & 3), sd + batch, MON_CANARY | MON_SNAPSHOT, &r);
-      if (r.skipped) continue;
-      calls++;
-      srcb += r.src_bytes;
-      if (r.src_modified) viol("snapshot", "%s [%s] N=%" PRIu64 " %s: %s", o->name, r.shape, N, native ? "native" : "generic", r.msg);
-      if (r.canary_bad) viol("canary", "%s [%s]: %s", o->name, r.shape, r.msg);
-      if (r.src_bytes) cntf("snapshotted:%s", 1, o->name);
-    }
-    // after all the calls of one entry point: the shared objects are bit-for-bit what they were at creation
-    uint64_t t2;
-    if (env_hash(env, &t2) != h0) {
-      viol("table", "a module / precomputed table changed while calling %s (N=%" PRIu64 " %s)", o->name, N, native ? "native" : "generic");
-      break;
-    }
-    cnt("table_bytes_compared", tb);
-  }
+  batch_t B = {N, native, batch, seeds, env, h0, tb, 0, 0};
+  if (foreign) {
+    pthread_t t;
+    pthread_create(&t, 0, batch_calls, &B);
+    pthread_join(t, 0);
+    cnt("batches_called_from_another_thread", 1);
+  } else
+    batch_calls(&B);
+  const uint64_t calls = B.calls, srcb = B.srcb;
   ro_unprotect();
   if (ro_available() && ro_hash() != rh0) viol("table", "an allocation made at module/table creation changed during the batch (N=%" PRIu64 ")", N);
   env_destroy(env);
